@@ -37,7 +37,13 @@ DOCS = [
     "mutation { other { b tags strict } inc }",
     "mutation { x: inc other { b } x: inc set(v: \"s\") { id } other { tags } }",
     "mutation { set(v: \"x\") { name id a } inc other { strict b } }",
+    # a nullable root field whose *arguments* fail at execution time (null variable into a defaulted non-null argument): a field error
+    # like any other -- the following root fields still run
+    "mutation M($n: Int = 2) { a: inc(step: $n) set(v: \"x\") { id } b: inc }",
+    "mutation M($n: Int = 2) { ...SF other { b } } fragment SF on Mutation { inc first: inc(by: 1, step: $n) }",
 ]
+DOC_VARS = {"mutation M($n: Int = 2) { a: inc(step: $n) set(v: \"x\") { id } b: inc }": [{"n": None}, {"n": 3}, {}],
+            "mutation M($n: Int = 2) { ...SF other { b } } fragment SF on Mutation { inc first: inc(by: 1, step: $n) }": [{"n": None}, {}]}
 # sibling fields awaited in place or gathered, per field: default (all gathered) and the two alternating assignments
 CONFIGS = ["default", "mixed-even", "mixed-odd", "engine-sequential", "renamed-roots"]
 # the same schema with other names for the root types (declared through a `schema { ... }` block)
@@ -114,7 +120,7 @@ def run_shard(item):
     a2 = build_root(schema, "A", 4, depth=2)
     overrides = {("many",): [a1, a2], ("req",): a1, ("other",): build_root(schema, "B", 5, depth=2)}
     loop = sched.VLoop()
-    varsets = [{"s": True}, {"s": False}] if located.operations[0].vars else [None]
+    varsets = DOC_VARS.get(DOCS[di]) or ([{"s": True}, {"s": False}] if located.operations[0].vars else [None])
     for variables in varsets:
         for faults in placements(schema, located, variables, root, overrides):
             scn = Scenario(root=root, faults=faults, overrides=overrides)
